@@ -58,6 +58,61 @@ pub fn alphabet_multi(seed: u64) -> Vec<(&'static str, Vec<Vec<u8>>)> {
     out
 }
 
+/// Valid requests of each shape with one header word replaced (see `run`).
+pub fn header_sweeps() -> Vec<(String, Vec<u8>)> {
+    let mut out = vec![];
+    let bases: Vec<(&str, Vec<u8>, usize)> = vec![
+        ("classic", classic_request(&nonce(0x5e1, 64), 1024), 0),
+        ("ietf", ietf_request(&VER_IETF13, None, &nonce(0x5e2, 32), 1024), 12),
+        ("ietf-srv", ietf_request(&VER_IETF13, Some(&crypto::srv_value(&crypto::public_key(&SrvCfg::default().seed))), &nonce(0x5e3, 32), 1024), 12),
+    ];
+    let mut tags: Vec<u32> = codec::known_tags().iter().map(|t| u32::from_le_bytes(*t)).collect();
+    tags.extend([u32::from_le_bytes(*b"XXXX"), u32::from_le_bytes(*b"PAD\x00"), 0, 0xffff_ffff]);
+    for (name, base, m0) in bases {
+        let cnt = u32::from_le_bytes(base[m0..m0 + 4].try_into().unwrap()) as usize;
+        let len = base.len();
+        let mut put = |fam: String, at: usize, v: u32| {
+            let mut b = base.clone();
+            b[at..at + 4].copy_from_slice(&v.to_le_bytes());
+            out.push((fam, b));
+        };
+        for c in (0..=20u32).chain([0x4000_0000, 0x8000_0000, 0xffff_ffff]) {
+            put(format!("sweep-count:{}", name), m0, c);
+        }
+        for w in 0..cnt - 1 {
+            let mut v = 0usize;
+            while v <= len + 16 {
+                put(format!("sweep-offset:{}", name), m0 + 4 + 4 * w, v as u32);
+                v += 4;
+            }
+            for v in [1u32, 2, 3, 5, 0x7fff_fffc, 0x8000_0000, 0xffff_fffc, 0xffff_ffff] {
+                put(format!("sweep-offset:{}", name), m0 + 4 + 4 * w, v);
+            }
+        }
+        for w in 0..cnt {
+            for &t in &tags {
+                put(format!("sweep-tag:{}", name), m0 + 4 * cnt + 4 * w, t);
+            }
+        }
+        // pairs of offset words over a coarse grid (decreasing / equal / past-the-end combinations)
+        let area = len - m0 - codec::header_len(cnt);
+        let grid = [0usize, 4, 32, area.saturating_sub(4), area, area + 4, len - m0 - 4, len - m0, len, len + 4];
+        for w1 in 0..cnt - 1 {
+            for w2 in w1 + 1..cnt - 1 {
+                for &a in &grid {
+                    for &c in &grid {
+                        let mut b = base.clone();
+                        b[m0 + 4 + 4 * w1..m0 + 8 + 4 * w1].copy_from_slice(&(a as u32).to_le_bytes());
+                        b[m0 + 4 + 4 * w2..m0 + 8 + 4 * w2].copy_from_slice(&(c as u32).to_le_bytes());
+                        out.push((format!("sweep-offset-pair:{}", name), b));
+                    }
+                }
+            }
+        }
+    }
+    out
+}
+
 pub fn run_history(cfg: &SrvCfg, hist: &[usize], al: &[(&'static str, Vec<Vec<u8>>)]) -> Result<Option<(String, String)>, String> {
     let mut p = Prober::new(cfg)?;
     let mut clients: Vec<Client> = vec![];
@@ -212,6 +267,51 @@ pub fn run(ctx: &Ctx) -> Result<(), String> {
             }
         }
     }
+    // near-valid requests: every header word of a valid request of each shape swept over its whole
+    // interesting range (every aligned offset value from 0 to past the datagram length, every
+    // count 0..=20, every known tag and some unknown ones), one datagram per fresh poll cycle, at
+    // every log level; the worker must survive each and answer the sentinel after it
+    let sweeps = header_sweeps();
+    for level in LEVELS {
+        inproc::set_level(level);
+        let shards = crate::util::nthreads() * 2;
+        par_for(shards, 1, |sh, _| {
+            let mut p = match Prober::new(&SrvCfg::default()) {
+                Ok(p) => p,
+                Err(e) => {
+                    *failed.lock().unwrap() = Some(e);
+                    return;
+                }
+            };
+            let mut i = sh;
+            while i < sweeps.len() {
+                let (fam, dg) = &sweeps[i];
+                i += shards;
+                evals.fetch_add(1, Relaxed);
+                transitions.fetch_add(6, Relaxed);
+                let lv = format!("{}", level);
+                let cls = format!("{}@{}", fam, if level >= log::LevelFilter::Debug { "debug-or-trace" } else { "upto-info" });
+                match p.probe(dg) {
+                    Err(e) => {
+                        *failed.lock().unwrap() = Some(e);
+                        return;
+                    }
+                    Ok(o) => {
+                        if let Some(pn) = o.panic {
+                            ctx.violation("panic", panic_site(&pn), &cls, json!({"kind":"datagram","family":fam,"len":dg.len(),"hex":hex_trunc(dg, 1600),"log_level":lv,"message":pn}));
+                            p = Prober::new(&SrvCfg::default()).unwrap();
+                        } else if !o.sentinel_ok {
+                            ctx.violation("sentinel-unanswered", "other", &cls, json!({"kind":"datagram","family":fam,"len":dg.len(),"hex":hex_trunc(dg, 1600),"log_level":lv}));
+                        }
+                    }
+                }
+            }
+        });
+        if let Some(e) = failed.lock().unwrap().take() {
+            inproc::set_level(log::LevelFilter::Off);
+            return Err(e);
+        }
+    }
     // thorough: the C07 datagram space as single-datagram histories at level Trace
     let mut extra = 0usize;
     if ctx.tier == Tier::Thorough {
@@ -262,8 +362,8 @@ pub fn run(ctx: &Ctx) -> Result<(), String> {
     ctx.cov("distinct_nontrivial", json!(evals.load(Relaxed)));
     ctx.cov("log_records_formatted", json!(inproc::LOG_RECORDS.load(Relaxed)));
     ctx.cov("exhaustive", json!(true));
-    ctx.cov("bound", json!({"sequence_length": d, "alphabet": al.iter().map(|a| a.0).collect::<Vec<_>>(), "log_levels": 6, "fault_percentage": faults, "batch_size": bss, "extra_single_datagrams_at_trace": extra}));
-    ctx.cov("rule", json!(format!("all sequences of length 1..={} over {} datagram classes (15 single datagrams + 2/3 valid requests of one protocol arriving together), each executed twice (stepping after every datagram; all queued before the first step) on a fresh real in-process Server, for every log level Off..Trace (a capturing logger formats every enabled record) x fault_percentage {{0,50}} x batch_size {{1,2,64}}; after the sequence a pair of valid requests of each protocol queued together and then one of each alone must be answered (fault 0: with an authentic reply). Oracle: process_events never unwinds, sentinels answered. A failing history is minimised by dropping events. states = histories x configurations; every one executes on the implementation.", d, al.len())));
+    ctx.cov("bound", json!({"sequence_length": d, "alphabet": al.iter().map(|a| a.0).collect::<Vec<_>>(), "log_levels": 6, "fault_percentage": faults, "batch_size": bss, "extra_single_datagrams_at_trace": extra, "header_sweep_datagrams_x6_levels": sweeps.len()}));
+    ctx.cov("rule", json!(format!("all sequences of length 1..={} over {} datagram classes (15 single datagrams + 2/3 valid requests of one protocol arriving together), each executed twice (stepping after every datagram; all queued before the first step) on a fresh real in-process Server, for every log level Off..Trace (a capturing logger formats every enabled record) x fault_percentage {{0,50}} x batch_size {{1,2,64}}; after the sequence a pair of valid requests of each protocol queued together and then one of each alone must be answered (fault 0: with an authentic reply). Plus {} near-valid single datagrams (every header word of a valid classic / IETF / IETF+SRV request swept: all aligned offset values 0..len+16, counts 0..=20, every known tag, offset pairs on a grid) at every log level. Oracle: process_events never unwinds, sentinels answered. A failing history is minimised by dropping events. states = histories x configurations; every one executes on the implementation.", d, al.len(), sweeps.len())));
     ctx.sample(json!({"classes":["classic-empty-nonce"],"log_level":"DEBUG","fault":0,"batch_size":64}));
     ctx.sample(json!({"classes":["random-65507","valid-ietf","ietf-header-mutated"],"log_level":"TRACE","fault":50,"batch_size":2}));
     ctx.assume("log level is process-global in the `log` crate: levels are explored one after another, all worker threads sharing the level");
